@@ -424,3 +424,19 @@ Theorem C20_generated_builders_agree :
     nth 0 ValidateRegistry_lits [] = b "dummy://".
 Proof. exact generated_builders_agree. Qed.
 Print Assumptions C20_generated_builders_agree.
+
+(* ---------- Reference.Validate ---------- *)
+
+Theorem C20_parse_validate :
+  forall (avail ip6_ok : str -> bool) s r,
+    parse avail (go_valid_registry ip6_ok) s = Some r -> validate avail (go_valid_registry ip6_ok) r = true.
+Proof. exact parse_validate. Qed.
+Print Assumptions C20_parse_validate.
+
+(* the round trip holds for every Reference VALUE that passes Validate, not only for parsed ones *)
+Theorem C20_validate_roundtrip :
+  forall (avail ip6_ok : str -> bool) r,
+    validate avail (go_valid_registry ip6_ok) r = true ->
+    parse avail (go_valid_registry ip6_ok) (format avail r) = Some r.
+Proof. exact validate_roundtrip. Qed.
+Print Assumptions C20_validate_roundtrip.
